@@ -14,3 +14,19 @@ Theorem C02_reader_result_is_valid : forall preset opts chunks final m,
   read_model preset opts chunks final = ROk m -> wf_msg m /\ verify m = Accept.
 Proof. intros preset opts chunks final m H. destruct (accepted_is_valid preset opts chunks final m H) as (A & B & _). auto. Qed.
 Print Assumptions C02_reader_result_is_valid.
+
+(* stabilisation: when what the reader hands back is canonical (which the two recorded findings show is
+   not always so), writing it in any layout and reading again - under any chunking - returns exactly the
+   message of the first read. Corollary of the file-level write-then-read theorem (C01). *)
+From Wire Require Import Theory.Segments Theory.FileRoundTripFull.
+
+Theorem C02_second_read_equals_first_when_canonical : forall opts chunks m1 variable nl t2 chunks2,
+  read_model None opts chunks FEOF = ROk m1 -> msg_covered m1 -> sep_ok nl ->
+  write_model m1 variable nl = WOk t2 -> length t2 < max_token -> concat chunks2 = t2 ->
+  read_model None (m_opts m1) chunks2 FEOF = ROk m1.
+Proof.
+  intros opts chunks m1 variable nl t2 chunks2 Hr Hc Hs Hw Hl Hc2.
+  destruct (accepted_is_valid None opts chunks FEOF m1 Hr) as (Hwf & _).
+  apply (write_then_read_covered m1 variable nl t2 Hwf Hc Hs Hw Hl chunks2 Hc2).
+Qed.
+Print Assumptions C02_second_read_equals_first_when_canonical.
